@@ -746,6 +746,10 @@ NUMQ_FORMS = [
     ('exists int n: (count(start, "<digit>", n) and exists <digit> d in start: (= d n))', "list"),
     ('forall int n: exists int m: ((not count(start, "<term>", n)) or (count(start, "<term>", m) and (= n m)))', "expr"),
     ('exists int n: (= n "2")', "list"),
+    # the exact string that count() reports matters here (canonical numeral, no padding)
+    ('exists int n: (count(start, "<assgn>", n) and (= (str.len n) 1))', "assgn"),
+    ('forall int n: ((not count(start, "<term>", n)) or (<= (str.len n) 1))', "expr"),
+    ('exists int n: (count(start, "<assgn>", n) and ((= n "1") or (= n "2")))', "assgn"),
 ]
 # hypotheses of C03_eval_correct_mexpr (Props/C03.v) as the verified boolean `mexpr_guard`
 # (EvalMexprCheck.v), evaluated on the INSTANTIATED formula; `mismatches` lists the cases where
